@@ -45,6 +45,8 @@ def shapes(rnd, quick):
         ("common-prefix", [1, 2, 3, 4, 5], [1, 2, 3, 6, 7]),
         ("no-common-prefix", [4, 5, 1, 2, 3], [6, 7, 1, 2, 3]),
         ("deletion", [1, 2, 3, 4, 5, 6], [1, 2, 4, 5, 6]),
+        ("run-then-recurrence", [1, 1, 2, 1], [1, 2, 1, 1]),
+        ("runs-interleaved", [1, 1, 2, 2, 1], [2, 1, 1, 2, 1]),
     ]
     if not quick:
         for _ in range(10):
